@@ -589,7 +589,7 @@ def _tactic1(nctx, names, elims, which):
                 h.cover("transformed")
                 r = res[0]
                 h.ensure("C04.%s.bound" % which, z3.Implies(s.sat(ctx), bound_ok(s, term, r, refine)))
-                h.check("C04.%s.no_auxiliary_variable" % which, "_" not in s.coefs(r), "the auxiliary variable '_' survives in the result")
+                h.check("C04.%s.no_auxiliary_variable" % which, all(n in names for n in s.coefs(r)), "an auxiliary variable survives in the result: %s" % sorted(s.coefs(r)))
                 h.check("C13.%s.fresh" % which, r is not term and all(r is not g for g in ctx_terms), "result is an operand")
         h.check("C13.operands_unchanged", all(s.unchanged(t, sn) for t, sn in zip([term] + ctx_terms, snaps)), "operand modified")
         h.frame_ok(out, "C13.frame")
@@ -612,6 +612,22 @@ for _which in ("_tactic_1", "_tactic_3"):
             shards=_sh,
             weight=8 if _nctx > 1 else 2,
         )(_tactic1(_nctx, _names, _elims, _which))
+
+
+# a caller's variable that happens to be called "_" (any name is legal in a dictionary): tactic 3's auxiliary variable must
+# not be confused with it
+contract(
+    "PolyhedralTermList._tactic_3[1 context terms over x,y,z,_]",
+    ["C04", "C14", "C13"],
+    [PTL + "_tactic_3", PTL + "_context_reduction", PTL + "_get_kaykobad_context", POLY + ":PolyhedralTerm.substitute_variable"],
+    "S",
+    bound="term and 1 context term over {x,y,z,_} (every support); eliminated variables [x,y]; at most 2 simultaneously solved variables",
+    assumes=["A6"],
+    covers=["declined", "transformed"],
+    chain=["C01", "C02"],
+    shards=4,
+    weight=3,
+)(_tactic1(1, ["x", "y", "z", "_"], [["x", "y"]], "_tactic_3"))
 
 
 # ------------------------------------------------------------------------------------------------
